@@ -22,6 +22,12 @@ pub(super) enum Action {
 
     /// Write lock
     Write,
+
+    /// Read lock attempt that never blocks
+    TryRead,
+
+    /// Write lock attempt that never blocks
+    TryWrite,
 }
 
 #[derive(Debug)]
@@ -79,12 +85,12 @@ impl RwLock {
     }
 
     pub(crate) fn try_acquire_read_lock(&self, location: Location) -> bool {
-        self.state.branch_action(Action::Read, location);
+        self.state.branch_action(Action::TryRead, location);
         self.post_acquire_read_lock()
     }
 
     pub(crate) fn try_acquire_write_lock(&self, location: Location) -> bool {
-        self.state.branch_action(Action::Write, location);
+        self.state.branch_action(Action::TryWrite, location);
         self.post_acquire_write_lock()
     }
 
@@ -157,7 +163,7 @@ impl RwLock {
                 .as_ref()
                 .map(|operation| operation.object());
 
-            if obj == Some(self.state.erase()) {
+            if obj == Some(self.state.erase()) && thread.is_blocked() {
                 thread.set_runnable();
             }
         }
@@ -257,7 +263,11 @@ impl RwLock {
                 }
 
                 match th.operation.as_ref() {
-                    Some(op) if op.object() == self.state.erase() => {
+                    // A lock attempt does not wait for the lock.
+                    Some(op)
+                        if op.object() == self.state.erase()
+                            && (op.action() == Action::Read || op.action() == Action::Write) =>
+                    {
                         let location = op.location();
                         th.set_blocked(location);
                     }
